@@ -12,6 +12,12 @@ coarse one) of "new TutteEmbedding of some configuration on the SAME mesh object
 is executed; after every call the object that ran must hold what the same configuration gives on a fresh twin mesh, every
 embedding object created earlier must still hold the coordinates it held right after its own run, and at the end the flat
 mesh of every object must show that object's coordinates.
+
+Further dimensions (each re-uses the clause-by-clause oracle; the input class carries the computed class of the deviation):
+configuration switch config.sort_neighborhoods in {True, False} x every face order that puts one face in position 0;
+degenerate geometry partners (zero-length edge, all vertices at one point / on one line, zero-area triangle) under uniform
+weights, whose result is a function of the combinatorics alone; a sweep over EVERY border length 3..130 (quick) / 3..260
+(thorough) on wheels, fans, zigzag strips and two-ring wheels; the same disk in another unit of length (x 2^-30, x 2^30).
 """
 from __future__ import annotations
 import functools, math
@@ -21,7 +27,8 @@ from mc import families as F
 ID = "C17"
 TECHNIQUE = ("bounded-exhaustive enumeration (flip-graph BFS = all triangulations of each point set; all labelled "
              "complexes on <= 6 vertices) x all configurations of the real TutteEmbedding vs a clause-by-clause oracle; "
-             "exhaustive call histories (depth 2-3) of embeddings on one mesh object vs fresh-twin runs and snapshots")
+             "exhaustive call histories (depth 2-3) of embeddings on one mesh object vs fresh-twin runs and snapshots; "
+             "exhaustive configuration switch x face order, degenerate-geometry partners, border-length sweep, unit-of-length partners")
 RULE = ("one case = (triangulated disk with its vertex numbering and orientation, geometry, boundary mode, weights); "
         "disks: every triangulation of every point set P = convex k-gon + j interior lattice points (two placement rules: "
         "nearest the centroid / inside the ears / regular-ish polygon with an inner ring) under 4 renumberings (identity, reversed, multiplicative scramble, "
@@ -30,7 +37,12 @@ RULE = ("one case = (triangulated disk with its vertex numbering and orientation
         "paraboloid-lifted geometry where admissible x save_on_corners True/False; non-trivial = more than one triangle; "
         "non-disks: every labelled complex of SURF(n) with chi != 1 + closed / annular / multi-component specimens; "
         "histories: one case = (disk, sequence of events on ONE mesh object), event = run a new embedding object of configuration "
-        "(boundary mode, weights, storage) or run() again on the object created last; all sequences of the stated depth")
+        "(boundary mode, weights, storage) or run() again on the object created last; all sequences of the stated depth; "
+        "configuration: one case = (disk, value of config.sort_neighborhoods while the mesh is built and embedded, face moved to position 0), "
+        "every face in turn; degenerate geometry: one case = (disk, kind of degeneracy), uniform weights, compared clause by clause and with "
+        "the result on the regular geometry; border length: one case = (shape in wheel / fan / zigzag strip / two-ring wheel, border length n), "
+        "every n up to the bound; unit of length: one case = (disk, geometry, factor 2^-30 or 2^30), compared clause by clause and with the "
+        "result in the original unit")
 ASSUMPTIONS = [
     "meshes are oriented manifold triangulated disks within the stated size bounds (plus grids up to 5x5); larger meshes are not explored",
     "cotangent weights are exercised only where an exactly evaluated predicate says: every edge weight >= 0 and every edge "
@@ -46,10 +58,19 @@ ASSUMPTIONS = [
     "taken right after its run, 1e-9 relative); with config.display_duplicate_attribute_warning=True create_attribute hands back the "
     "existing attribute, so there only the latest result and the equality with the fresh-twin run are judged; histories are explored "
     "on a selection of disks (border lengths 4..10, with/without interior vertices and chords, planar and curved), depth <= 3",
+    "config.sort_neighborhoods is a documented switch of mouette.config ('sort the corner connectivity arrays'): the statement holds for "
+    "either value; the switch is set before the mesh is built, left in place during the embedding and restored afterwards (try/finally)",
+    "uniform weights: 'with uniform weights always' - the embedding is a function of the combinatorics alone, so a disk whose geometry is "
+    "degenerate (coincident vertices, collinear vertices, zero-area triangles; finite coordinates) is a legal input and gives the coordinates "
+    "of the regular geometry (1e-9 relative); cotangent weights are never requested on degenerate geometry",
+    "unit of length: coordinates times 2^-30 / 2^30 are exact in binary floating point (asserted), cotangents are ratios, so the same "
+    "coordinates are expected in either unit (1e-9 relative to the size of the target)",
+    "border length sweep: wheels, fans, zigzag strips for every border length up to 130 (quick) / 260 (thorough), two-ring wheels up to "
+    "65 / 260; longer borders are not explored",
 ]
 BOUNDS = {
-    "quick": "TRI(P) for all k>=3, j>=0, k+j<=7 (3 placement rules, 3 renumberings; 473 triangulations); Delaunay triangulations of regular k-gons (k=3..7) + 1 or 2 interior points on a coarse lattice (1228); all labelled SURF(n<=5) + the 28 classes of SURF(6); grids 3x3..4x4; fans and wheels with border 9..16; zoo of non-disks (closed, annuli, two components, two holes); call histories on one mesh: 8 disks x all depth-2 sequences over {circle, square, custom} x {uniform, cotan where admissible} x {vertices, corners} + 'run again', 3 disks x all depth-3 sequences over {circle, square} x {vertices, corners} + 'run again' (978 histories)",
-    "thorough": "TRI(P) for all k>=3, j>=0, k+j<=8 (3 placement rules, 4 renumberings; 1941 triangulations); Delaunay triangulations of regular k-gons + 1..3 interior lattice points (4807); all 12934 labelled SURF(6) complexes; grids up to 5x5; fans and wheels with border 9..16; zoo of non-disks; call histories on one mesh: 18 disks x all depth-2 sequences over the 4 boundary modes x {uniform, cotan where admissible} x {vertices, corners} + 'run again', and all depth-3 sequences over {circle/uniform, square/uniform, custom/cotan, custom/uniform} x {vertices, corners} + 'run again' (10466 histories)",
+    "quick": "TRI(P) for all k>=3, j>=0, k+j<=7 (3 placement rules, 3 renumberings; 473 triangulations); Delaunay triangulations of regular k-gons (k=3..7) + 1 or 2 interior points on a coarse lattice (1228); all labelled SURF(n<=5) + the 28 classes of SURF(6); grids 3x3..4x4; fans and wheels with border 9..16; zoo of non-disks (closed, annuli, two components, two holes); call histories on one mesh: 8 disks x all depth-2 sequences over {circle, square, custom} x {uniform, cotan where admissible} x {vertices, corners} + 'run again', 3 disks x all depth-3 sequences over {circle, square} x {vertices, corners} + 'run again' (978 histories); config.sort_neighborhoods False x every face in position 0 over TRI(P) k+j<=6 (3 renumberings), the labelled disks of SURF(n<=5) + SURF(6) classes, grids 3x3 / 3x4, fans and wheels 9..12, and True x every face in position 0 over TRI(P) k+j<=6, a quarter of the SURF disks and the same specimens; 5 kinds of degenerate geometry x uniform weights over TRI(P) k+j<=6, a quarter of the SURF disks, the specimens; EVERY border length 3..130 on wheels, fans, zigzag strips and 3..65 on two-ring wheels x circle / square / custom; unit of length 2^-30 and 2^30 over TRI(P) k+j<=6 (planar and lifted), every 8th Delaunay input, the specimens and sweep shapes of border 5 / 17 / 64",
+    "thorough": "TRI(P) for all k>=3, j>=0, k+j<=8 (3 placement rules, 4 renumberings; 1941 triangulations); Delaunay triangulations of regular k-gons + 1..3 interior lattice points (4807); all 12934 labelled SURF(6) complexes; grids up to 5x5; fans and wheels with border 9..16; zoo of non-disks; call histories on one mesh: 18 disks x all depth-2 sequences over the 4 boundary modes x {uniform, cotan where admissible} x {vertices, corners} + 'run again', and all depth-3 sequences over {circle/uniform, square/uniform, custom/cotan, custom/uniform} x {vertices, corners} + 'run again' (10466 histories); config.sort_neighborhoods in {False, True} x every face in position 0 over TRI(P) k+j<=7 (4 renumberings), the labelled disks of SURF(n<=5) + SURF(6) classes, grids up to 4x4, fans and wheels 9..16; 5 kinds of degenerate geometry x uniform weights over TRI(P) k+j<=7 (2 renumberings), the same SURF disks and specimens; EVERY border length 3..260 on wheels, fans, zigzag strips and two-ring wheels x circle / square / custom; unit of length 2^-30 and 2^30 over TRI(P) k+j<=7 (planar and lifted, 2 renumberings), every 16th Delaunay input, the specimens and sweep shapes of border 5 / 17 / 64",
 }
 
 SCALE = 6          # polygon of families.convex_polygon_points(k) is scaled so that it contains enough lattice points
@@ -957,7 +978,7 @@ def _is_disk(faces, n):
     return sig, (tri and sig["chi"] == 1 and sig["comps"] == 1 and sig["loops"] == 1)
 
 
-def dispatch(rep: Report, name, ipts, faces, modes, lift=None, uniform=True):
+def dispatch(rep: Report, name, ipts, faces, modes, lift=None, uniform=True, cotan=True):
     """Route a complex: disk -> full check, chi != 1 -> rejection clause, chi == 1 non-disk -> nothing promised."""
     faces = [tuple(f) for f in faces]
     n = len(ipts)
@@ -971,7 +992,7 @@ def dispatch(rep: Report, name, ipts, faces, modes, lift=None, uniform=True):
             rep.count("chi1_non_disk_not_judged")
         return
     d = Disk(name, ipts3, fpts, faces)
-    geoms = ([("uniform", False, None, fpts)] if uniform else []) + [("cotan", True, ipts3, fpts)]
+    geoms = ([("uniform", False, None, fpts)] if uniform else []) + ([("cotan", True, ipts3, fpts)] if cotan else [])
     if lift is not None:
         geoms.append(("cotan-lift", True, lift[0], lift[1]))
     check_disk(rep, d, modes, geoms)
@@ -1142,8 +1163,10 @@ def _del_sources(tier, every, batch):
     return [{"src": "del", "tier": tier, "idx": idx[lo:lo + batch]} for lo in range(0, len(idx), batch)]
 
 
-def _sweep_lengths(tier):
-    return list(range(3, SWEEP_MAX[tier] + 1))
+def _sweep_lengths(tier, shape):
+    """EVERY border length from 3 up to the bound of the tier (the larger two-ring shape: up to half of it in the quick tier)"""
+    top = SWEEP_MAX[tier] // 2 if (shape == "ring2" and tier == "quick") else SWEEP_MAX[tier]
+    return list(range(3, top + 1))
 
 
 def _dimension_tasks(tier):
@@ -1156,15 +1179,16 @@ def _dimension_tasks(tier):
         srcs = _tri_sources(tier, nmax, rls, 6) + _zoo_sources(tier) + (_surf_sources(16) if not sort or thorough else _surf_sources(16)[::4])
         out += [{"family": "cfg", "sort": sort, "source": sp} for sp in srcs]
     # (2) degenerate geometry partners, uniform weights
-    out += [{"family": "degen", "source": sp} for sp in _tri_sources(tier, nmax, ("id", "scr"), 12) + _zoo_sources(tier) + _surf_sources(40)[::2]]
+    out += [{"family": "degen", "source": sp} for sp in _tri_sources(tier, nmax, ("id", "scr") if thorough else ("id",), 12) + _zoo_sources(tier)
+            + (_surf_sources(30) if thorough else _surf_sources(30)[::4])]
     # (3) border length sweep
-    ns = _sweep_lengths(tier)
     for shape in SWEEP_SHAPES:
+        ns = _sweep_lengths(tier, shape)
         for lo in range(0, len(ns), 4):
             out.append({"family": "sweep", "source": {"src": "sweep", "shape": shape, "ns": ns[lo:lo + 4]}})
     # (4) unit of length
     for e in UNIT_EXPONENTS:
-        srcs = _tri_sources(tier, nmax, ("id", "mir"), 12) + _zoo_sources(tier) + _del_sources(tier, 8 if not thorough else 16, 12)
+        srcs = _tri_sources(tier, nmax, ("id", "mir") if thorough else ("id",), 12) + _zoo_sources(tier) + _del_sources(tier, 8 if not thorough else 16, 12)
         srcs += [{"src": "sweep", "shape": sh, "ns": [n for n in (5, 17, 64) if n <= SWEEP_MAX[tier]]} for sh in SWEEP_SHAPES]
         out += [{"family": "unit", "exp": e, "source": sp} for sp in srcs]
     return out
@@ -1197,6 +1221,10 @@ def run_cfg(rep: Report, task):
                 check_disk(rep, d, MODES[:3], [("uniform", False, None, fpts), ("cotan", True, ipts3, fpts)])
             rep.flag("cfg" + sfx)
             rep.count("cfg_inputs:" + ("sorted" if sort else "unsorted"))
+
+
+DEGENERATE_KINDS = ("zero_length_border_edge", "zero_length_interior_edge", "all_vertices_at_one_point", "all_vertices_on_one_line",
+                    "zero_area_triangle")
 
 
 def degenerate_geometries(d: Disk):
@@ -1286,8 +1314,9 @@ def run_unit(rep: Report, task):
 
 
 def run_sweep(rep: Report, task):
+    """every border length; cotangent weights where there is an interior vertex for them to act on (and they are admissible)"""
     for (name, ipts3, faces, _lift) in _source_disks(task["source"]):
-        dispatch(rep, name, ipts3, faces, MODES[:3])
+        dispatch(rep, name, ipts3, faces, MODES[:3], cotan=task["source"]["shape"] in ("wheel", "ring2"))
         rep.count("sweep_inputs:" + task["source"]["shape"])
         rep.flag(f"sweep:{task['source']['shape']}:{len(F.border_loops(faces)[0])}")
 
@@ -1399,6 +1428,27 @@ def finish(tier, rep: Report):
             fails.append("counter is zero: " + c)
     if PINNED_HIST.get(tier) is not None and rep.counters.get("histories", 0) != PINNED_HIST[tier]:
         fails.append(f"histories executed {rep.counters.get('histories', 0)} differ from the pinned {PINNED_HIST[tier]}")
+    # further dimensions: configuration switch x face order, degenerate geometry, border length sweep, unit of length
+    for srt in ("sorted", "unsorted"):
+        for fc in ("face0_touches_border", "face0_interior"):
+            if f"cfg:{srt}:{fc}" not in rep.flags:
+                fails.append(f"coverage flag missing: cfg:{srt}:{fc}")
+        if not rep.counters.get("cfg_inputs:" + srt):
+            fails.append("counter is zero: cfg_inputs:" + srt)
+    if "cfg:border_successor_not_listed_first:unsorted" not in rep.flags:
+        fails.append("config.sort_neighborhoods=False never produced a border vertex whose first listed neighbour is not its border successor")
+    for kind in DEGENERATE_KINDS:
+        for c in ("degen_inputs:" + kind, "degen_equals_regular:" + kind):
+            if not rep.counters.get(c):
+                fails.append("counter is zero: " + c)
+    for shape in SWEEP_SHAPES:
+        missing = [n for n in _sweep_lengths(tier, shape) if f"sweep:{shape}:{n}" not in rep.flags]
+        if missing:
+            fails.append(f"border lengths of the sweep not executed ({shape}): {missing[:10]}")
+    for e in UNIT_EXPONENTS:
+        for c in [f"unit_inputs:2^{e}"] + [f"unit_equals_original:{w}:2^{e}" for w in ("uniform", "cotan", "cotan-lift")]:
+            if not rep.counters.get(c):
+                fails.append("counter is zero: " + c)
     # the exclusion of the square clause can only trigger once a side carries three border vertices
     if rep.counters.get("square_border_ok_len>=5") and not rep.counters.get("square_excluded_chord_on_one_side"):
         fails.append("square borders of length >= 5 were placed correctly but the one-side exclusion never triggered")
